@@ -69,12 +69,40 @@ GroupVerdict(w, s, groups, g) ==
       got |-> grp.picks, near |-> cx.near, far |-> cx.far, reps |-> cx.reps,
       predicted |-> [i \in 1 .. n |-> Offer(w, s, cx, base + i)]]
 
+\* Interleaved group: several iterators alive at once, advanced alternately (the harness records each
+\* iterator's OWN sequence).  The property speaks about the sequence offered for one query, whatever
+\* other queries do meanwhile: the same predicates apply to every iterator's sequence.  Besides, the
+\* replica list the policy holds for the token afterwards (an observation of its replica map, C10's
+\* "hosts a token-aware policy offers first") must still be Cassandra's placement, owner first.
+SeqKinds(w, s, q, seq, capped) ==
+  LET k0 == PickFailing(w, s, QCtx(w, s, q), seq, capped) IN
+  IF k0 # {} /\ Ambiguous(w, s, q) /\ PickFailing(w, s, QCtxAlt(w, s, q), seq, capped) = {} THEN {} ELSE k0
+StoredKinds(w, s, q, rep) ==
+  LET pl == IF TokenAware(w, s, q) THEN Placement(w, s, q) ELSE <<>> IN
+  IF pl = <<>> THEN {}
+  ELSE LET ring == CurRing(w, s)
+           p == PrimaryIndex(CurTokens(w, s), q)
+           holds == IF w.strat = "simple" THEN SimpleOwnerHolds(w.rfn[1]) ELSE NtsOwnerHolds(ring, p, w.dc, KsRf(w))
+       IN Failing(rep, pl, ring, p, holds)
+IlVerdict(w, s, il, g) ==
+  LET grp == il[g]
+      n == Len(grp.qs)
+      per == [j \in 1 .. n |-> SeqKinds(w, s, grp.qs[j], grp.seqs[j], grp.capped[j])]
+  IN [g |-> g, qs |-> grp.qs, sched |-> grp.sched, seqs |-> grp.seqs,
+      kinds |-> UNION {per[j] : j \in 1 .. n},
+      stored |-> StoredKinds(w, s, grp.qs[1], grp.rep1),
+      rep0 |-> grp.rep0, rep1 |-> grp.rep1,
+      placement |-> IF TokenAware(w, s, grp.qs[1]) THEN Placement(w, s, grp.qs[1]) ELSE <<>>,
+      firstbad |-> LET bs == {j \in 1 .. n : per[j] # {}} IN IF bs = {} THEN 0 ELSE CHOOSE j \in bs : \A m \in bs : j <= m]
+
 Verdict(r) ==
   LET w == r.w
       upto == IF r.pat > 0 THEN r.pat ELSE Len(r.hist)
       s == StateAfter(w, r.hist, upto)
       gv == [g \in 1 .. Len(r.groups) |-> GroupVerdict(w, s, r.groups, g)]
-  IN [id |-> r.id, pclass |-> r.pclass, pat |-> r.pat, pgrp |-> r.pgrp,
+      iv == [g \in 1 .. Len(r.il) |-> IlVerdict(w, s, r.il, g)]
+  IN [id |-> r.id, pclass |-> r.pclass, pat |-> r.pat, pgrp |-> r.pgrp, pil |-> r.pil,
+      ilbad |-> {iv[g] : g \in {x \in 1 .. Len(r.il) : iv[x].kinds # {} \/ iv[x].stored # {}}},
       absentdc |-> NamesAbsentDc(w, s), emptyring |-> Len(CurRing(w, s)) = 0,
       bad |-> {gv[g] : g \in {x \in 1 .. Len(r.groups) : gv[x].kinds # {}}},
       drift |-> UNION {gv[g].drift : g \in 1 .. Len(r.groups)},
@@ -85,10 +113,12 @@ WellFormed(r) == /\ Len(r.w.ring) = Len(r.w.tokens) /\ Len(r.w.dc) = Len(r.w.rac
                  /\ \A k \in 1 .. Len(r.w.ring) : r.w.ring[k] \in 1 .. Len(r.w.dc)
                  /\ \A k \in 1 .. Len(r.w.tokens) - 1 : r.w.tokens[k] < r.w.tokens[k + 1]
                  /\ \A g \in 1 .. Len(r.groups) : Len(r.groups[g].picks) = Len(r.groups[g].capped)
+                 /\ \A g \in 1 .. Len(r.il) : Len(r.il[g].qs) = Len(r.il[g].seqs) /\ Len(r.il[g].qs) = Len(r.il[g].capped)
+                                              /\ Len(r.il[g].qs) >= 1
 
 Report == l > 0 =>
   IF ~WellFormed(Log[l]) THEN PrintT(<<"MALFORMED", ToJson([id |-> Log[l].id])>>)
   ELSE LET v == Verdict(Log[l]) IN
-       /\ (v.pclass # "none" \/ v.bad # {}) => PrintT(<<"VIOL", ToJson(v)>>)
-       /\ (v.pclass = "none" /\ v.bad = {} /\ v.drift # {}) => PrintT(<<"DRIFT", ToJson(v)>>)
+       /\ (v.pclass # "none" \/ v.bad # {} \/ v.ilbad # {}) => PrintT(<<"VIOL", ToJson(v)>>)
+       /\ (v.pclass = "none" /\ v.bad = {} /\ v.ilbad = {} /\ v.drift # {}) => PrintT(<<"DRIFT", ToJson(v)>>)
 =============================================================================
